@@ -26,10 +26,13 @@ func init() {
 				totals = []int{120, 126, 127, 128, 129, 135}
 			}
 			// the redirect guard: a trailing-slash redirect is only issued for paths already in canonical form
-			for _, s := range []int{7, 18} {
+			for _, s := range []int{7, 18, 26} {
 				maxlp := 4
 				if tier == "thorough" {
 					maxlp = 5
+				}
+				if s == 26 {
+					maxlp = 7 // accepted static patterns that are not canonical (/n/./b/, /m/../d, /k/./e/)
 				}
 				for lp := 2; lp <= maxlp; lp++ {
 					js = append(js, &Job{Harness: "C08Dispatch", Params: map[string]int{"set": s, "mode": 1, "lp": lp, "lq": 0, "raw": 0}})
@@ -114,7 +117,7 @@ func init() {
 	}
 }
 
-const nHandSets = 23
+const nHandSets = 28
 
 func lookupJobs(h string, nsets, maxLh, maxLp int) []*Job {
 	var js []*Job
@@ -143,7 +146,7 @@ func init() {
 			}
 			return fmt.Sprint(nHandSets+47) + " corpus route sets x every Host of 0..3 bytes x every path of 1..7 bytes (full byte alphabet, no empty segment), method GET; entry-point agreement (ServeHTTP, Lookup, Reverse, Iter.Reverse, Txn read/write Lookup+Reverse) on the same sets with Host 0..2, path 1..5"
 		},
-		RequiredCovers: []string{"direct match", "no direct match", "matched via hostname", "one backtrack", "two backtracks", "infix catch-all matched", "lookup matched", "lookup tsr"},
+		RequiredCovers: []string{"direct match", "no direct match", "matched via hostname", "one backtrack", "two backtracks", "infix catch-all matched", "lookup matched", "lookup tsr", "primed with an ignored trailing-slash match"},
 	}
 }
 
@@ -157,7 +160,7 @@ func init() {
 			isets, ilp := nHandSets+13, 5
 			if tier == "thorough" {
 				js = lookupJobs("C08Tsr", nHandSets+187, 4, 8)
-				dsets = []int{0, 6, 7, 8, 9, 13, 15, 17, 18, 22, 25, 27}
+				dsets = []int{0, 6, 7, 8, 9, 13, 15, 17, 18, nHandSets + 3, nHandSets + 6, nHandSets + 8}
 				dlp, dlq = 5, 2
 				isets, ilp = nHandSets+43, 6
 			} else {
@@ -224,6 +227,8 @@ func init() {
 			for _, s := range []int{1, 7, 13, 18} {
 				js = append(js, &Job{Harness: "C16Alloc", Params: map[string]int{"set": s, "lh": 0, "lp": 6, "raw": 1}})
 			}
+			// the deep-alternatives set needs its 8-byte request to reach the bottom of the tree
+			js = append(js, &Job{Harness: "C16Alloc", Params: map[string]int{"set": 25, "lh": 0, "lp": 7}}, &Job{Harness: "C16Alloc", Params: map[string]int{"set": 25, "lh": 0, "lp": 8}})
 			return js
 		},
 		Bounds: func(tier string) string {
@@ -281,7 +286,7 @@ func c02Jobs(tier string) []*Job {
 	}
 	starts := []int{-1, 0, 6, 11, 16, 17, 19}
 	if tier == "thorough" {
-		starts = []int{-1, 0, 1, 2, 4, 6, 9, 10, 11, 12, 14, 16, 17, 18, 19, 20}
+		starts = []int{-1, 0, 1, 2, 4, 6, 9, 10, 11, 12, 14, 16, 17, 18, 19, 20, nHandSets, nHandSets + 1}
 	}
 	for _, s := range starts {
 		if tier == "thorough" && s == 16 {
@@ -318,6 +323,15 @@ func c02Jobs(tier string) []*Job {
 		add(-1, 2, 2, 2, 8)
 		add(0, 2, 2, 2, 4)
 	}
+	// hostnames that are label-wise prefixes of each other (pool window 20..23), from the empty router
+	kk := 2
+	if tier == "thorough" {
+		kk = 3
+	}
+	js = append(js, &Job{Harness: "C02History", Params: map[string]int{"set": -1, "k": kk, "methods": 2, "symlen": 0, "pool": 4, "poolfrom": 20, "iter": 1}})
+	js = append(js, &Job{Harness: "C02History", Params: map[string]int{"set": -1, "k": kk, "methods": 2, "symlen": 0, "pool": 4, "poolfrom": 20, "iter": 0}})
+	// a route registered on an existing branching node without a route, then writes below it (pool window 24..27, siblings-3 set)
+	js = append(js, &Job{Harness: "C02History", Params: map[string]int{"set": 17, "k": kk, "methods": 1, "symlen": 0, "pool": 4, "poolfrom": 24, "iter": 0}})
 	return js
 }
 
@@ -327,9 +341,9 @@ func init() {
 		Jobs: c02Jobs,
 		Bounds: func(tier string) string {
 			if tier == "thorough" {
-				return "16 start sets (empty, hand and generated corpus sets incl. hostnames and the 60-sibling fan-out) x histories of k<=3 writes (Handle, HandleRoute, Update, UpdateRoute, Delete, Truncate(all), Truncate(method)) issued directly or in a committed/aborted transaction, methods {GET,FOO,POST,\"\"}, patterns from an 18-entry pool; plus a first write with a symbolic pattern of 1..5 arbitrary bytes; every reader checked after every step"
+				return "18 start sets (empty, hand and generated corpus sets incl. hostnames and the 60-sibling fan-out) x histories of k<=3 writes (Handle, HandleRoute, Update, UpdateRoute, Delete, Truncate(all), Truncate(method)) issued directly or in a committed/aborted transaction, methods {GET,FOO,POST,\"\"}, patterns from an 18-entry pool (and two 4-entry pools: hostnames that are label-wise prefixes of each other, from the empty router; a route on an existing branching node plus routes below it, from the siblings-3 set); plus a first write with a symbolic pattern of 1..5 arbitrary bytes; every reader checked after every step"
 			}
-			return "6 start sets x histories of k<=2 writes (7 kinds) direct / committed txn / aborted txn, with and without an iterator on the open transaction between the steps, methods {GET,FOO}, 6..8-entry pattern pool (12 for k=1); plus a first write with a symbolic pattern of 1..4 arbitrary bytes (k=1; 1..3 on four of the sets) and 2 bytes (k=2); every reader (Has, Route, Len, Iter.All/Methods/Prefix/Routes) checked after every step"
+			return "7 start sets x histories of k<=2 writes (7 kinds) direct / committed txn / aborted txn, with and without an iterator on the open transaction between the steps, methods {GET,FOO}, 6..8-entry pattern pool (12 for k=1), and two 4-entry pools (hostnames that are label-wise prefixes of each other, from the empty router; a route on an existing branching node plus routes below it, from the siblings-3 set); plus a first write with a symbolic pattern of 1..4 arbitrary bytes (k=1; 1..3 on four of the sets) and 2 bytes (k=2); every reader (Has, Route, Len, Reverse, Iter.All/Methods/Prefix per method and over all methods/Routes/Reverse) checked after every step"
 		},
 		RequiredCovers: []string{"handle ok", "handle: ErrRouteExist", "handle: ErrRouteConflict", "handle: ErrInvalidRoute", "update ok", "update: ErrRouteNotFound", "delete ok", "delete: ErrRouteNotFound", "truncate all", "truncate method"},
 		Assumptions:    []string{"grammar don't-care regions are skipped (see C10)", "regexp.MatchString on the (concrete) method is executed natively"},
@@ -342,14 +356,14 @@ func init() {
 		Jobs: func(tier string) []*Job {
 			nsets, maxLh, maxLp := nHandSets+23, 2, 5
 			if tier == "thorough" {
-				nsets, maxLh, maxLp = nHandSets+133, 3, 7
+				nsets, maxLh, maxLp = nHandSets+63, 3, 6
 			}
 			var js []*Job
 			for s := 0; s < nsets; s++ {
 				if s == 16 {
 					continue // fan-out set: covered by C02/C01 (61 routes x 9 histories is slow to build)
 				}
-				for h := 0; h < 10; h++ {
+				for h := 0; h < 11; h++ {
 					for lh := 0; lh <= maxLh; lh++ {
 						for lp := 1; lp <= maxLp; lp++ {
 							js = append(js, &Job{Harness: "C07Pair", Params: map[string]int{"set": s, "hist": h, "lh": lh, "lp": lp}})
@@ -361,9 +375,9 @@ func init() {
 		},
 		Bounds: func(tier string) string {
 			if tier == "thorough" {
-				return fmt.Sprint(nHandSets+133-1) + " corpus route sets (routes alternately GET/POST) x 10 history shapes (every unregistered route prefix inserted and deleted again, reverse, interleaved, extras inserted+deleted after / before, update in place, delete+reinsert each, truncate+refill in one txn, aborted txn full of writes, delete all + reinsert reversed) x request method in {GET,POST,DELETE,OPTIONS} x every Host of 0..3 bytes x every path of 1..7 bytes; 405 and auto-OPTIONS enabled"
+				return fmt.Sprint(nHandSets+63-1) + " corpus route sets (routes alternately GET/POST) x 11 history shapes (an aborted caching transaction registering every unregistered prefix and routes right below it, every unregistered route prefix inserted and deleted again, reverse, interleaved, extras inserted+deleted after / before, update in place, delete+reinsert each, truncate+refill in one txn, aborted txn full of writes, delete all + reinsert reversed) x request method in {GET,POST,DELETE,OPTIONS} x every Host of 0..3 bytes x every path of 1..6 bytes; 405 and auto-OPTIONS enabled"
 			}
-			return "39 corpus route sets (routes alternately GET/POST) x 10 history shapes x request method in {GET,POST,DELETE,OPTIONS} x every Host of 0..2 bytes x every path of 1..5 bytes; 405 and auto-OPTIONS enabled"
+			return fmt.Sprint(nHandSets+23-1) + " corpus route sets (routes alternately GET/POST) x 11 history shapes x request method in {GET,POST,DELETE,OPTIONS} x every Host of 0..2 bytes x every path of 1..5 bytes; 405 and auto-OPTIONS enabled"
 		},
 		RequiredCovers: []string{"both matched", "405 compared", "OPTIONS compared"},
 		Assumptions:    []string{"no external oracle: router A (canonical insertion order) versus router B (history); the absolute correctness of A is C01/C08/C11's obligation"},
@@ -408,7 +422,7 @@ func init() {
 			if tier == "thorough" {
 				return fmt.Sprint(nHandSets+103) + " corpus route sets (routes spread over GET/POST/FOO/OPTIONS; per route: every third ignores trailing slashes; on three sets with paths of 2..3 bytes every third route redirects instead and a redirect-scope middleware observes the redirect handler's context) x the 4 combinations of method-not-allowed and auto-OPTIONS x request method in {GET,POST,FOO,OPTIONS,DELETE} x every Host of 0..3 bytes x every path of 1..7 bytes and the target '*'"
 			}
-			return "39 corpus route sets (routes spread over GET/POST/FOO/OPTIONS; per route: every third ignores trailing slashes; on three sets with paths of 2..3 bytes every third route redirects instead and a redirect-scope middleware observes the redirect handler's context) x the 4 combinations of method-not-allowed and auto-OPTIONS x request method in {GET,POST,FOO,OPTIONS,DELETE} x every Host of 0..2 bytes x every path of 1..5 bytes and the target '*'"
+			return fmt.Sprint(nHandSets+23-1) + " corpus route sets (routes spread over GET/POST/FOO/OPTIONS; per route: every third ignores trailing slashes; on three sets with paths of 2..3 bytes every third route redirects instead and a redirect-scope middleware observes the redirect handler's context) x the 4 combinations of method-not-allowed and auto-OPTIONS x request method in {GET,POST,FOO,OPTIONS,DELETE} x every Host of 0..2 bytes x every path of 1..5 bytes and the target '*'"
 		},
 		RequiredCovers: []string{"404", "405", "OPTIONS", "OPTIONS *", "served by a route", "primed with an ignored trailing-slash match", "redirect handler context observed", "percent-encoded request"},
 	}
@@ -445,17 +459,28 @@ func init() {
 					}
 				}
 			}
+			// the state a request is being served from: one published state per request, under every schedule
+			// (a route moved between methods in one transaction || a request whose answer depends on both
+			// methods; a multi-route transaction || a reader)
+			pre := 2
+			if tier == "thorough" {
+				pre = 3
+			}
+			for _, s := range []int{0, 10} {
+				js = append(js, &Job{Harness: "C05Conc", Params: map[string]int{"set": s, "scenario": 9, "preempt": pre}})
+				js = append(js, &Job{Harness: "C05Conc", Params: map[string]int{"set": s, "scenario": 3, "preempt": pre}})
+			}
 			return js
 		},
 		Bounds: func(tier string) string {
 			if tier == "thorough" {
-				return "9 start sets x 5 snapshot kinds (Router.Iter, read-only Txn, Txn.Snapshot before/after a write, Txn.Iter after a write) x 1 later write (7 kinds, 8-pattern pool; 2 later writes with a 4-pattern pool for the first three kinds) issued directly / in a new txn / in the same txn, then commit or abort; snapshot re-observed (All, Prefix, Routes, Has, Route, Len, Lookup of every path of 2 and 4 bytes) after every step; frozen-object monitor on everything reachable from the snapshot"
+				return "concurrent half: 2 routers x {route moved from POST to GET in one Updates || GET request with 405 handling; two-route transaction || reader}, every sync-granularity schedule with <=3 pre-emptions; sequential half: 9 start sets x 5 snapshot kinds (Router.Iter, read-only Txn, Txn.Snapshot before/after a write, Txn.Iter after a write) x 1 later write (7 kinds, 8-pattern pool; 2 later writes with a 4-pattern pool for the first three kinds) issued directly / in a new txn / in the same txn, then commit or abort; snapshot re-observed (All, Prefix, Routes, Has, Route, Len, Lookup of every path of 2 and 4 bytes) after every step; frozen-object monitor on everything reachable from the snapshot"
 			}
-			return "2 start sets x 5 snapshot kinds (Router.Iter, read-only Txn, Txn.Snapshot before/after a write, Txn.Iter after a write) x 1 later write (7 kinds, 6-pattern pool; 2 later writes with a 4-pattern pool for the first three snapshot kinds) issued directly / in a new txn / in the same txn, then commit or abort; snapshot re-observed (All, Prefix, Routes, Has, Route, Len, Lookup of every 3-byte path) after every step; frozen-object monitor on everything reachable from the snapshot"
+			return "concurrent half: 2 routers x {route moved from POST to GET in one Updates || GET request with 405 handling; two-route transaction || reader}, every sync-granularity schedule with <=2 pre-emptions; sequential half: 2 start sets x 5 snapshot kinds (Router.Iter, read-only Txn, Txn.Snapshot before/after a write, Txn.Iter after a write) x 1 later write (7 kinds, 6-pattern pool; 2 later writes with a 4-pattern pool for the first three snapshot kinds) issued directly / in a new txn / in the same txn, then commit or abort; snapshot re-observed (All, Prefix, Routes, Has, Route, Len, Lookup of every 3-byte path) after every step; frozen-object monitor on everything reachable from the snapshot"
 		},
-		RequiredCovers: []string{"commit after snapshot", "abort after snapshot", "handle ok", "delete ok", "update ok", "truncate all"},
+		RequiredCovers: []string{"commit after snapshot", "abort after snapshot", "handle ok", "delete ok", "update ok", "truncate all", "method move||request", "txn||reader"},
 		Assumptions: []string{
-			"the concurrent-reader half is reduced to the sequential one: no store ever reaches an object reachable from a snapshot (frozen-object monitor), so a reader holding it is unaffected under any interleaving; races are C05's obligation",
+			"the concurrent-reader half is mostly reduced to the sequential one: no store ever reaches an object reachable from a snapshot (frozen-object monitor), so a reader holding it is unaffected under any interleaving; in addition two thread programs check that a request / a reader is answered from one published state under every explored schedule; races are C05's obligation",
 			"transactions touching more than the 4096-entry writable-node cache are outside the bound",
 			"the state a request is being served from is covered through the tree pointer captured by Router.Iter (same iTree object)",
 		},
@@ -487,13 +512,18 @@ func init() {
 					}
 				}
 			}
+			// a route registered on an existing branching node without a route, then writes below it (pool window 24..27)
+			js = append(js, &Job{Harness: "C04Txn", Params: map[string]int{"set": 17, "k": 2, "pool": 4, "poolfrom": 24, "iter": 0}})
+			if tier == "thorough" {
+				js = append(js, &Job{Harness: "C04Txn", Params: map[string]int{"set": 17, "k": 3, "pool": 4, "poolfrom": 24, "iter": 0}})
+			}
 			return js
 		},
 		Bounds: func(tier string) string {
 			if tier == "thorough" {
-				return "12 start sets x transactions of k<=3 writes (7 kinds, methods {GET,FOO}, pattern pool 12/8/3 for k=1/2/3) x 5 endings (Commit, Abort, Updates returning nil, Updates returning an error after j ops, Updates panicking after j ops; j symbolic in 0..k); txn view, router view and a fresh read-only txn compared with the model after every step; settled-txn, double Commit/Abort, new-writer and read-only-writes obligations on every path"
+				return "12 start sets x transactions of k<=3 writes (7 kinds, methods {GET,FOO}, pattern pool 12/8/3 for k=1/2/3; on the siblings-3 set also k<=3 over a pool holding a route on an existing branching node and routes below it) x 5 endings (Commit, Abort, Updates returning nil, Updates returning an error after j ops, Updates panicking after j ops; j symbolic in 0..k); txn view, router view and a fresh read-only txn compared with the model after every step; settled-txn, double Commit/Abort, new-writer and read-only-writes obligations on every path"
 			}
-			return "4 start sets x transactions of k<=2 writes (7 kinds, methods {GET,FOO}, pattern pool 12 for k=1, 4..8 for k=2 on three start sets, with and without an iterator on the open transaction between steps) x 5 endings (Commit, Abort, Updates returning nil, Updates returning an error after j ops, Updates panicking after j ops; j symbolic in 0..k); txn view, router view and a fresh read-only txn compared with the model after every step; settled-txn, double Commit/Abort, new-writer and read-only-writes obligations on every path"
+			return "4 start sets x transactions of k<=2 writes (7 kinds, methods {GET,FOO}, pattern pool 12 for k=1, 4..8 for k=2 on three start sets, with and without an iterator on the open transaction between steps; on the siblings-3 set also k=2 over a pool holding a route on an existing branching node and routes below it) x 5 endings (Commit, Abort, Updates returning nil, Updates returning an error after j ops, Updates panicking after j ops; j symbolic in 0..k); txn view, router view and a fresh read-only txn compared with the model after every step; settled-txn, double Commit/Abort, new-writer and read-only-writes obligations on every path"
 		},
 		RequiredCovers: []string{"explicit commit", "explicit abort", "managed commit", "managed: error returned", "managed: panic", "new write transaction opened"},
 		Assumptions: []string{
@@ -549,12 +579,14 @@ func init() {
 					js = append(js, &Job{Harness: "C20Log", Params: map[string]int{"resolver": r, "kind": k}})
 				}
 			}
+			// a request whose RawPath differs from its path (404 handler)
+			js = append(js, &Job{Harness: "C20Log", Params: map[string]int{"resolver": 0, "kind": 1, "raw": 1}})
 			return js
 		},
 		Bounds: func(tier string) string {
-			return "4 resolver configurations (none, succeeding, failing, per-route override over a failing router-wide one) x 5 handler kinds (route, 404, 405, trailing-slash redirect, OPTIONS) x 9 handler behaviours (WriteHeader(code) for every code 100..999 by solver, implicit 200 via Write, Redirect with Location, 301 without Location, nothing written, panic, any code with a Location header, Write then a superfluous WriteHeader(code), 201 then a superfluous WriteHeader(code)); A/B against the same router without the middleware"
+			return "4 resolver configurations (none, succeeding, failing, per-route override over a failing router-wide one) x 5 handler kinds (route, 404, 405, trailing-slash redirect, OPTIONS) x 10 handler behaviours (FlushError then WriteHeader(code) on a writer offering FlushError, WriteHeader(code) for every code 100..999 by solver, implicit 200 via Write, Redirect with Location, 301 without Location, nothing written, panic, any code with a Location header, Write then a superfluous WriteHeader(code), 201 then a superfluous WriteHeader(code)); a 404 request whose RawPath differs from its path; A/B against the same router without the middleware"
 		},
-		RequiredCovers: []string{"2xx", "3xx", "4xx", "5xx", "location logged", "panic through logger"},
+		RequiredCovers: []string{"2xx", "3xx", "4xx", "5xx", "location logged", "panic through logger", "request with RawPath"},
 		Assumptions: []string{
 			"log/slog front end modelled: slog.String/Int/Duration/Any/Group and Logger.LogAttrs/Error hand level, message and attributes to the capturing handler (natively the same handler receives the real slog.Record); slog's own delivery is outside the claim",
 			"time.Now/time.Since are stubs (fixed latency); the latency attribute is not asserted",
@@ -588,9 +620,9 @@ func init() {
 			if tier == "thorough" {
 				k = "3"
 			}
-			return "12 panic values (error, wrapped and bare http.ErrAbortHandler, string, custom struct, *net.OpError over *os.SyscallError with 'broken pipe' / 'Connection reset by peer' / other, the same syscall error nested in a second OpError or wrapped with %w, a run-time error, OpError without SyscallError) x 4 response progress states (nothing, header, partial body, flushed on a writer offering FlushError) x 4 handler kinds (route, 404, 405, OPTIONS); redaction: each of the six credential header names in every capitalisation (2^letters spellings per name, decided by the solver on a byte-wise case constraint); managed transactions: Updates run by a handler under Recovery, Updates called directly, View run by a handler, with every sequence of 1.." + k + " writes out of 6 (Handle, Update, Delete, Truncate(GET), Truncate(), Handle under another method) and the panic after every step"
+			return "12 panic values (error, wrapped and bare http.ErrAbortHandler, string, custom struct, *net.OpError over *os.SyscallError with 'broken pipe' / 'Connection reset by peer' / other, the same syscall error nested in a second OpError or wrapped with %w, a run-time error, OpError without SyscallError) x 5 response progress states (nothing, header, partial body, flushed on a writer offering FlushError, 101 Switching Protocols) x 4 handler kinds (route, 404, 405, OPTIONS); redaction: each of the six credential header names in every capitalisation (2^letters spellings per name, decided by the solver on a byte-wise case constraint); managed transactions: Updates run by a handler under Recovery, Updates called directly, View run by a handler, Router.Handle / Router.Update panicking while the route's middleware chain is built (inside a handler), with every sequence of 1.." + k + " writes out of 6 (Handle, Update, Delete, Truncate(GET), Truncate(), Handle under another method) and the panic after every step"
 		},
-		RequiredCovers: []string{"ErrAbortHandler re-raised", "500 written", "broken connection: nothing written", "panic after a flush", "spelled as in the list", "other capitalisation", "panic inside Updates in a handler", "panic inside a direct Updates", "panic inside View in a handler"},
+		RequiredCovers: []string{"ErrAbortHandler re-raised", "500 written", "broken connection: nothing written", "panic after a flush", "spelled as in the list", "other capitalisation", "panic inside Updates in a handler", "panic inside a direct Updates", "panic inside View in a handler", "panic inside a single-operation write in a handler", "panic after a protocol switch"},
 		Assumptions: []string{
 			"httputil.DumpRequest modelled: request line, Host line, one 'Key: value' line per stored header value with keys as stored, CRLF separated (natively the real DumpRequest is used on replay)",
 			"log/slog front end modelled as in C20; runtime.Callers returns no frames (stack text not asserted)",
@@ -615,7 +647,12 @@ func init() {
 			add(3, 1, 0)
 			add(1, 1, 1)
 			add(2, 0, 1)
+			add(3, 1, 1)
+			for g := 0; g <= 2; g++ {
+				js = append(js, &Job{Harness: "C13Chain", Params: map[string]int{"g": g, "r": 1, "defaults": 0, "routeredir": 1}})
+			}
 			if tier == "thorough" {
+				add(4, 0, 1)
 				add(3, 2, 0)
 				add(3, 0, 1)
 				add(4, 0, 0)
@@ -628,9 +665,9 @@ func init() {
 			if tier == "thorough" {
 				g = 4
 			}
-			return fmt.Sprintf("up to %d global middleware, each registered through WithMiddleware or WithMiddlewareFor with a solver-chosen 8-bit scope mask (all 256 values), optionally together with DefaultOptions; up to 2 route middleware; all five handler kinds per configuration; Route.Handle / Route.HandleMiddleware; Update; a second route with other middleware; concurrent NewRoute (see threads)", g)
+			return fmt.Sprintf("up to %d global middleware, each registered through WithMiddleware or WithMiddlewareFor with a solver-chosen 8-bit scope mask (all 256 values), optionally together with DefaultOptions (registered after up to 3, thorough 4, of them); trailing-slash redirect enabled router-wide or only on the route that needs it; up to 2 route middleware; all five handler kinds per configuration; Route.Handle / Route.HandleMiddleware; Update; a second route with other middleware; concurrent NewRoute (see threads)", g)
 		},
-		RequiredCovers: []string{"chains compared", "three or more global middleware", "concurrent NewRoute"},
+		RequiredCovers: []string{"chains compared", "three or more global middleware", "concurrent NewRoute", "redirect enabled per route only"},
 		Assumptions: []string{
 			"the console slog handler of DefaultOptions is a stub (its output is not modelled); Recovery and Logger themselves are executed",
 		},
@@ -709,9 +746,9 @@ func init() {
 			if tier == "thorough" {
 				k = 4
 			}
-			return fmt.Sprintf("every sequence of k<=%d requests over 10 shapes (direct, ignored trailing slash, 404, 405, OPTIONS, redirect, manual Lookup+Clone+Close, CloneWith in a handler, Clone in a handler, tree replaced by Handle before the request) with distinct tokens in path parameter, query, request header, response header, status and body size; every sync.Pool.Get explores each pooled context; every getter read in each handler; clones re-read at the end", k)
+			return fmt.Sprintf("every sequence of k<=%d requests over 11 shapes (direct, ignored trailing slash, 404, 405, OPTIONS, redirect, manual Lookup+Clone+Close, CloneWith in a handler, Clone in a handler, tree replaced by Handle before the request, connection hijacked by the handler) with distinct tokens in path parameter, query, request header, response header, status and body size; every sync.Pool.Get explores each pooled context; every getter read in each handler; clones re-read at the end", k)
 		},
-		RequiredCovers: []string{"Clone of a Lookup context", "CloneWith in a handler", "Clone taken in a handler", "concurrent requests", "redirect handler context observed"},
+		RequiredCovers: []string{"Clone of a Lookup context", "CloneWith in a handler", "Clone taken in a handler", "concurrent requests", "redirect handler context observed", "connection hijacked in a handler"},
 		Assumptions:    []string{"sync.Pool modelled as a bag from which Get may return any pooled object (all choices explored) or call New when empty", "concurrent mixes of requests are not decided by this check (see level_note)"},
 	}
 }
@@ -763,7 +800,7 @@ func init() {
 			if tier == "thorough" {
 				k, n = 4, 6
 			}
-			return fmt.Sprintf("(a) every IPv4 (2^32) and IPv6 (2^128, incl. IPv4-mapped) address against the default, private, loopback and link-local range groups, by solver; (b) header lists of up to %d entries from a 14-entry catalogue (public/private/loopback/link-local v4 and v6, ports, brackets, zones, quotes, Forwarded parameters and capitalisation, empty, junk, unspecified, padded), solver-chosen split over header instances, X-Forwarded-For and Forwarded, trusted counts and limits 1..4; for lists of 1..2 (thorough: 1..3) entries the two non-private strategies also under all 8 combinations of their private / loopback / link-local range options; (c) an attacker prefix of 0..%d arbitrary bytes (commas included) in the same or an earlier header instance, for the three rightmost strategies over suffixes of 1..2 catalogue entries; single-header, chain and remote-address resolvers over catalogue pairs; crash freedom: every header value and remote address of 0..4 (quick; Forwarded also 5) / 0..6 (thorough) arbitrary bytes through every resolver", k, n)
+			return fmt.Sprintf("(a) every IPv4 (2^32) and IPv6 (2^128, incl. IPv4-mapped) address against the default, private, loopback and link-local range groups, by solver; (b) header lists of up to %d entries from a 15-entry catalogue (public/private/loopback/link-local v4 and v6, ports, brackets, zones, quotes, Forwarded parameters and capitalisation, empty, junk, unspecified, padded with spaces, padded with tabs), solver-chosen split over header instances, X-Forwarded-For and Forwarded, trusted counts and limits 1..4; for lists of 1..2 (thorough: 1..3) entries the two non-private strategies also under all 8 combinations of their private / loopback / link-local range options; (c) an attacker prefix of 0..%d arbitrary bytes (commas included) in the same or an earlier header instance, for the three rightmost strategies over suffixes of 1..2 catalogue entries; single-header, chain and remote-address resolvers over catalogue pairs; crash freedom: every header value and remote address of 0..4 (quick; Forwarded also 5) / 0..6 (thorough) arbitrary bytes through every resolver", k, n)
 		},
 		RequiredCovers: []string{"non private: a strict subset of the range classes configured", "IPv4 address inside the default ranges", "IPv6 address inside the default ranges", "IPv4-mapped address inside the default ranges",
 			"trusted count: designated entry", "trusted count: error", "non private: designated entry", "trusted range: designated entry", "trusted range: error",
@@ -789,7 +826,7 @@ func init() {
 				maxLp, maxLn = 5, 3
 			}
 			for _, s := range sets {
-				for stage := 0; stage < 5; stage++ {
+				for stage := 0; stage < 6; stage++ {
 					for lp := 2; lp <= maxLp; lp++ {
 						js = append(js, &Job{Harness: "C06Parked", Params: map[string]int{"set": s, "stage": stage, "lh": 0, "lp": lp, "ln": maxLn - 1}})
 					}
@@ -797,18 +834,18 @@ func init() {
 				}
 			}
 			// a 30-level chain (deep-tree code paths of the iterators)
-			for stage := 0; stage < 5; stage++ {
+			for stage := 0; stage < 6; stage++ {
 				js = append(js, &Job{Harness: "C06Parked", Params: map[string]int{"set": 0, "deep": 1, "stage": stage, "lh": 0, "lp": 3, "ln": 2}})
 			}
 			return js
 		},
 		Bounds: func(tier string) string {
 			if tier == "thorough" {
-				return "8 corpus routers (routes alternately GET/POST, redirect-trailing-slash on, 405 and auto-OPTIONS on) x a write transaction parked at 5 stages (just opened; after Handle+Delete+Truncate; inside Updates; after Txn.Snapshot and Txn.Iter; after a commit that replaced the tree on which a Lookup context, an Iter and a read-only Txn had been obtained - these are then used and closed) x every read entry point (ServeHTTP in 4 methods, Lookup, Clone, Reverse, Has, Route, Len, Stats, Iter.All/Methods/Prefix/Routes/Reverse, View with all Txn reads, read-only Txn with Snapshot/Commit/Abort) on every path of 2..5 bytes, host of 0 or 2 bytes and pattern of 2..3 bytes; the same 5 stages on a 30-level chain router (deep-tree iterator paths), path of 3 bytes; plus: a second writer does block"
+				return "8 corpus routers (routes alternately GET/POST, redirect-trailing-slash on, 405 and auto-OPTIONS on) x a write transaction parked at 5 stages (just opened; after Handle+Delete+Truncate; inside Updates; after Txn.Snapshot and Txn.Iter; after a commit that replaced the tree on which a Lookup context, an Iter and a read-only Txn had been obtained - these are then used and closed) x every read entry point (ServeHTTP in 4 methods, Lookup, Clone, Reverse, Has, Route, Len, Stats, Iter.All/Methods/Prefix/Routes/Reverse, View with all Txn reads, read-only Txn with Snapshot/Commit/Abort) on every path of 2..5 bytes, host of 0 or 2 bytes and pattern of 2..3 bytes; conversely (stage 6) a write (Handle+Delete) completes while a reader is parked inside Iter.Methods/All/Routes/Prefix/Reverse, inside View, with an open read-only Txn + Snapshot, with an open Lookup context and inside a request handler; the same 6 stages on a 30-level chain router (deep-tree iterator paths), path of 3 bytes; plus: a second writer does block"
 			}
-			return "4 corpus routers (routes alternately GET/POST, redirect-trailing-slash on, 405 and auto-OPTIONS on) x a write transaction parked at 5 stages (just opened; after Handle+Delete+Truncate; inside Updates; after Txn.Snapshot and Txn.Iter; after a commit that replaced the tree on which a Lookup context, an Iter and a read-only Txn had been obtained - these are then used and closed) x every read entry point (ServeHTTP in 4 methods, Lookup, Clone, Reverse, Has, Route, Len, Stats, Iter.All/Methods/Prefix/Routes/Reverse, View with all Txn reads, read-only Txn with Snapshot/Commit/Abort) on every path of 2..4 bytes, host of 0 or 2 bytes and pattern of 2..3 bytes; the same 5 stages on a 30-level chain router (deep-tree iterator paths), path of 3 bytes; plus: a second writer does block"
+			return "4 corpus routers (routes alternately GET/POST, redirect-trailing-slash on, 405 and auto-OPTIONS on) x a write transaction parked at 5 stages (just opened; after Handle+Delete+Truncate; inside Updates; after Txn.Snapshot and Txn.Iter; after a commit that replaced the tree on which a Lookup context, an Iter and a read-only Txn had been obtained - these are then used and closed) x every read entry point (ServeHTTP in 4 methods, Lookup, Clone, Reverse, Has, Route, Len, Stats, Iter.All/Methods/Prefix/Routes/Reverse, View with all Txn reads, read-only Txn with Snapshot/Commit/Abort) on every path of 2..4 bytes, host of 0 or 2 bytes and pattern of 2..3 bytes; conversely (stage 6) a write (Handle+Delete) completes while a reader is parked inside Iter.Methods/All/Routes/Prefix/Reverse, inside View, with an open read-only Txn + Snapshot, with an open Lookup context and inside a request handler; the same 6 stages on a 30-level chain router (deep-tree iterator paths), path of 3 bytes; plus: a second writer does block"
 		},
-		RequiredCovers: []string{"all read entry points completed while a writer was parked", "stale context closed while a writer was parked"},
+		RequiredCovers: []string{"all read entry points completed while a writer was parked", "stale context closed while a writer was parked", "writes completed while readers were parked"},
 		Assumptions: []string{
 			"sync.Mutex modelled: Lock on a mutex held by the parked writer is reported as blocked-forever (deadlock violation); blocking inside the Go runtime, sync.Pool or atomics is outside the model",
 			"the parked writer and the reader are the same executor thread: no scheduling is involved, the claim is that no read path acquires the writer lock (or any lock the writer holds) for any input in the bounds",
@@ -824,11 +861,11 @@ func init() {
 			sets := []int{0, 3, 10, 17}
 			pre := 2
 			if tier == "thorough" {
-				sets = []int{0, 1, 3, 6, 7, 10, 11, 13, 17, 19, 22}
+				sets = []int{0, 1, 3, 6, 7, 10, 11, 13, 17, nHandSets, nHandSets + 3}
 				pre = 3
 			}
 			for _, s := range sets {
-				for sc := 0; sc < 8; sc++ {
+				for sc := 0; sc < 10; sc++ {
 					js = append(js, &Job{Harness: "C05Conc", Params: map[string]int{"set": s, "scenario": sc, "preempt": pre}})
 				}
 			}
@@ -841,9 +878,9 @@ func init() {
 			if tier == "thorough" {
 				sets, pre = 11, 3
 			}
-			return fmt.Sprintf("%d start routers x 8 thread programs (Truncate(method) + re-registration in one Updates || reader; Handle||Handle on different routes from a 7-pattern pool; Handle||Handle on the same route; Update||Delete; two-route Updates || reader doing Has,Has,Iter.All,Has; Handle || ServeHTTP || ServeHTTP on routes sharing nodes; aborted write txn || reader; Update of a parent + Handle below it + marker in one Updates || reader) plus ServeHTTP||ServeHTTP with per-request tokens and NewRoute||NewRoute with 0..4 global middleware registered through WithMiddleware, WithMiddlewareFor or followed by DefaultOptions: every interleaving at synchronisation granularity (mutex Lock, atomic Load/Store, sync.Pool Get/Put, thread start/exit) with at most %d pre-emptive context switches; <= 3 threads besides the joiner; happens-before race monitor on every heap cell", sets, pre)
+			return fmt.Sprintf("%d start routers x 10 thread programs (Router.Delete of one route || Handle of another; a route moved from POST to GET in one Updates || a GET request with 405 handling on; Truncate(method) + re-registration in one Updates || reader; Handle||Handle on different routes from a 7-pattern pool; Handle||Handle on the same route; Update||Delete; two-route Updates || reader doing Has,Has,Iter.All,Has; Handle || ServeHTTP || ServeHTTP on routes sharing nodes; aborted write txn || reader; Update of a parent + Handle below it + marker in one Updates || reader) plus ServeHTTP||ServeHTTP with per-request tokens and NewRoute||NewRoute with 0..4 global middleware registered through WithMiddleware, WithMiddlewareFor or followed by DefaultOptions: every interleaving at synchronisation granularity (mutex Lock, atomic Load/Store, sync.Pool Get/Put, thread start/exit) with at most %d pre-emptive context switches; <= 3 threads besides the joiner; happens-before race monitor on every heap cell", sets, pre)
 		},
-		RequiredCovers: []string{"W||W different routes", "W||W same route", "Update||Delete", "txn||reader", "W||R||R", "abort||reader", "update+write-below||reader", "truncate+refill||reader", "concurrent requests", "concurrent NewRoute"},
+		RequiredCovers: []string{"W||W different routes", "W||W same route", "Update||Delete", "txn||reader", "W||R||R", "abort||reader", "update+write-below||reader", "truncate+refill||reader", "Delete||Handle", "method move||request", "concurrent requests", "concurrent NewRoute"},
 		Assumptions: []string{
 			"threads switch only at synchronisation operations; schedules finer than that are covered by the DRF argument only because the happens-before race monitor is clean on every explored schedule",
 			"pre-emption bound as stated; more threads, more operations per thread and unbounded pre-emption are outside the claim",
